@@ -282,6 +282,19 @@ def rule_flag(ctx):
     if st is not None and cfg.dominates(cfg.node_of(st), cfg.node_of(ev), dom):
         rr.ok('`%s[COMPILING] = True` dominates the pre-evaluation' % arg,
               '%s:%d' % (BUILDER, st.lineno))
+    elif st is None:
+        # not set in this function itself: C13.sites follows private helpers
+        # (and answers "cannot decide" when it cannot place the store)
+        from .c13 import rule_sites
+        sub_ = rule_sites(ctx)
+        mine = [x for x in sub_.findings if x.function == f.qualname]
+        if mine:
+            rr.fail(key_of(f, 'pre-evaluation without COMPILING'),
+                    mine[0].message, file=BUILDER, function=f.qualname,
+                    line=ev.lineno)
+        else:
+            rr.ok('the mapping given to the pre-evaluation comes from a helper '
+                  'that sets COMPILING=True', '%s:%d' % (BUILDER, ev.lineno))
     else:
         rr.fail(key_of(f, 'pre-evaluation without COMPILING'),
                 'the formula is pre-evaluated without COMPILING=True in its '
@@ -302,6 +315,20 @@ def rule_flag(ctx):
     loops = [n for n in own_nodes(f) if isinstance(n, ast.For) and any(
         isinstance(c, ast.Call) and call_name(c) == 'add_data' and kwarg(
             c, 'default_value') is not None for c in ast.walk(n))]
+    if not loops:
+        # the loop may have moved into a private helper: the call that hands
+        # the solution to it stands for the loop
+        from ..util import with_helpers
+        for g_ in with_helpers(ctx, f)[1:]:
+            if any(isinstance(n, ast.For) and any(
+                    isinstance(c, ast.Call) and call_name(c) == 'add_data'
+                    and kwarg(c, 'default_value') is not None
+                    for c in ast.walk(n)) for n in own_nodes(g_)):
+                loops = [n for n in own_nodes(f) if isinstance(n, ast.Call)
+                         and call_name(n) == g_.name]
+        if not loops:
+            raise AnalysisError('AstBuilder.compile: the loop that turns the '
+                                'solution into defaults was not found')
     if clr is None:
         rr.fail(key_of(f, 'COMPILING not cleared in the solution'),
                 'the solution of the pre-evaluation keeps COMPILING=True when '
@@ -343,8 +370,9 @@ def rule_flag(ctx):
 
 
 def run(ctx):
+    S = ctx.soft
     from .c03 import rule_pair
-    r = rule_pair(ctx)
+    r = S(rule_pair, ctx)
     # keep only the compiled-formula ordering obligation for C08.order
     r.prop, r.rule = 'C08', 'C08.order'
     r.obligations = [o for o in r.obligations if 'input mapping' in o.what
@@ -357,7 +385,7 @@ def run(ctx):
         o.rule = 'C08.order'
     r.instances, r.floor = len(r.obligations), 1
     from .c13 import rule_sites
-    v = rule_sites(ctx)
+    v = S(rule_sites, ctx)
     v.prop, v.rule = 'C08', 'C08.volatile'
     for f in v.findings:
         f.prop, f.rule = 'C08', 'C08.volatile'
@@ -365,6 +393,6 @@ def run(ctx):
         o.rule = 'C08.volatile'
     from .c07 import rule_nomut
     from .modelstate import rule_history
-    return [rule_unset(ctx), rule_freeze(ctx), rule_flag(ctx), r, v,
-            rule_nomut(ctx, 'C08', 'C08.nomut'),
-            rule_history(ctx, 'C08', 'C08.history')]
+    return [S(rule_unset, ctx), S(rule_freeze, ctx), S(rule_flag, ctx), r, v,
+            S(rule_nomut, ctx, 'C08', 'C08.nomut'),
+            S(rule_history, ctx, 'C08', 'C08.history')]
